@@ -500,13 +500,11 @@ theorem Eqv.ofFromDict (cls : String) (cfg : Cfg) (fs : List (FieldDef × Ty)) (
   unfold Mashu.fromDict
   simp only
   split
-  · exact Eqv.refl _
   · split
-    · split
-      · exact Eqv.refl _
-      · apply Eqv.bind (h _)
-        intro _; exact Eqv.refl _
     · exact Eqv.refl _
+    · apply Eqv.bind (h _)
+      intro _; exact Eqv.refl _
+  · exact Eqv.refl _
 
 theorem noMatch_kind (cx : Cx) (fx : Fx) (v : V) : (noMatch (nl cx) fx v).kind = (noMatch (cd cx) fx v).kind := by
   simp [noMatch, Exc.kind]
